@@ -1095,6 +1095,19 @@ def contains(I, cont, x):
 # ===================================================================== attributes
 def getattr(I, obj, name):
     st = I.st
+    if isinstance(obj, SuperV):
+        mro = obj.obj.cls.mro() if obj.obj.cls is not None else []
+        if obj.cls not in mro:
+            raise PyExc('TypeError', 'super(type, obj): obj must be an instance or subtype of type')
+        for c in mro[mro.index(obj.cls) + 1:]:
+            if name in c.attrs:
+                v = c.attrs[name]
+                if isinstance(v, PropertyV):
+                    return I.call(v.fget, [obj.obj], {})
+                if isinstance(v, Closure):
+                    return BoundMethod(v, obj.obj)
+                return v
+        raise PyExc('AttributeError', name)
     if isinstance(obj, Ref):
         if obj.kind == 'obj':
             cell = st.heap[obj]
